@@ -2,6 +2,7 @@ import Model.ZoneFile
 import Proofs.TokenizerLayout
 import Proofs.TokenizerTTL
 import Proofs.ZoneFileHeader
+import Proofs.ZoneFileInterp
 /-!
 One record line in the writer's canonical shape `owner SP ttl SP class SP type <rdata> NL` is read back as
 exactly one record.  RDATA text is abstract: all that is asked of it is that `dns.rdata.from_text`, started
@@ -30,8 +31,9 @@ theorem get_first_ident (w T : List Nat) (hw : identOK w = true) (hne : w ≠ []
     simp only [hs]
     simp only [gt_iff_lt, Nat.lt_irrefl, and_false, if_false]
     have := getLoop_ident true (c :: r) { ml := 0, q := false } dch rest hw rfl rfl rfl hd (by simp)
-    simp only [List.nil_append] at this
-    simp [this, identToken, Bool.false_or]
+    simp only [List.nil_append, List.cons_append] at this ⊢
+    rw [this]
+    simp [identToken]
 
 /-- `get(want_leading=True)` hands back an ungotten identifier -/
 theorem get_leading_ungotten (d : Nat) (pq : Bool) (T w : List Nat) :
@@ -99,7 +101,11 @@ theorem lineStep_record (r : PState) (ow ttlT clsT tyT rdText rest : List Nat) (
         ungotten := some (identToken ow) } } =
       .ok (some m, { r with tok := after 0 false (32 :: (ttlT ++ (32 :: (clsT ++ (32 :: (tyT ++ (rdText ++ rest))))))),
                             lastName := some n }) := by
-    rw [rrOwner_explicit _ (identToken ow) (after 0 false _) co zo n hco hzo (get_leading_ungotten 0 false _ ow)
+    have hgl := get_leading_ungotten 0 false (32 :: (ttlT ++ (32 :: (clsT ++ (32 :: (tyT ++ (rdText ++ rest))))))) ow
+    rw [rrOwner_explicit
+      { r with tok := { after 0 false (32 :: (ttlT ++ (32 :: (clsT ++ (32 :: (tyT ++ (rdText ++ rest))))))) with
+        ungotten := some (identToken ow) } }
+      (identToken ow) (after 0 false _) co zo n hco hzo hgl
       (by simp [identToken]) hl.ow_name hl.in_zone]
     simp only [hm, Except.map]
   unfold rrParse
@@ -121,11 +127,88 @@ theorem lineStep_record (r : PState) (ow ttlT clsT tyT rdText rest : List Nat) (
   -- rdata
   unfold rrFinish
   simp only [bind, Except.bind, hco, hzo, hrd.2 rest]
-  simp only [afterRecord, pure, Except.pure]
+  unfold afterRecord
+  by_cases hc : r.defaultTTLKnown = false ∧ ty = tSOA
+  · cases rd <;> simp [hc, pure, Except.pure, hco, hzo]
+  · simp [hc, pure, Except.pure, hco, hzo]
+
+/-! ## a whole file of canonical record lines -/
+
+theorem afterRecord_fields (r : PState) (n : Name) (ttl ty : Nat) (rd : Rdata) (rest : List Nat) :
+    (afterRecord r n ttl ty rd rest).tok = after 0 false rest ∧
+    (afterRecord r n ttl ty rd rest).currentOrigin = r.currentOrigin ∧
+    (afterRecord r n ttl ty rd rest).zoneOrigin = r.zoneOrigin ∧
+    (afterRecord r n ttl ty rd rest).relativize = r.relativize ∧
+    (afterRecord r n ttl ty rd rest).gfix = r.gfix := by
+  unfold afterRecord
+  simp only
   split
-  · rename_i hc
-    cases rd <;> simp_all
-  · rename_i hc
-    simp_all
+  · cases rd <;> simp
+  · simp
+
+/-- a record line as the writer prints it; `rdText` starts at the separator after the type and ends with the newline -/
+structure RecLine where
+  ow : List Nat
+  ttlT : List Nat
+  clsT : List Nat
+  tyT : List Nat
+  rdText : List Nat
+  n : Name          -- absolute owner
+  m : Name          -- owner as stored in the zone
+  ttl : Nat
+  ty : Nat
+  rd : Rdata
+  comment : Option (List Nat)
+
+def RecLine.text (l : RecLine) : List Nat :=
+  l.ow ++ (32 :: (l.ttlT ++ (32 :: (l.clsT ++ (32 :: (l.tyT ++ l.rdText))))))
+
+def RecLine.entry (l : RecLine) : Entry := ⟨l.m, l.ttl, l.ty, ⟨l.rd, l.comment⟩⟩
+
+def linesText : List RecLine → List Nat
+  | [] => []
+  | l :: rest => l.text ++ linesText rest
+
+/-- side conditions of one line under origin `zo` (no `$ORIGIN` change: current origin = zone origin) -/
+def RecLine.Good (l : RecLine) (zo : Name) (rel gfix : Bool) : Prop :=
+  LineOK l.ow l.ttlT l.clsT l.tyT zo zo l.n l.ttl l.ty ∧
+  ownerInZone rel l.n zo = .ok l.m ∧
+  RdataReads l.ty l.rdText l.rd l.comment (some zo) rel (some zo) gfix
+
+/-- the parser state after each line, and the trace of records -/
+def traceOfLines : List RecLine → PState → Trace
+  | [], r => .done r
+  | l :: rest, r =>
+    let r' := afterRecord r l.n l.ttl l.ty l.rd (linesText rest)
+    .entry r'.effOrigin l.entry (traceOfLines rest r')
+
+theorem lineStep_eof (r : PState) (h : r.tok = after 0 false []) : lineStep r = .ok (.eof, r) := by
+  unfold lineStep
+  simp [h, after, TState.get, skipWs, getLoop, stepEof, finishTok, liftT, bind, Except.bind, pure, Except.pure]
+
+/-- **the parser's trace of a file of canonical record lines is the list of their records** -/
+theorem parseTrace_lines (ls : List RecLine) (r : PState) (zo : Name) (fuel : Nat) (hf : ls.length < fuel)
+    (hco : r.currentOrigin = some zo) (hzo : r.zoneOrigin = some zo)
+    (htok : r.tok = after 0 false (linesText ls))
+    (hg : ∀ l ∈ ls, l.Good zo r.relativize r.gfix) :
+    parseTrace fuel r = traceOfLines ls r := by
+  induction ls generalizing r fuel with
+  | nil =>
+    cases fuel with
+    | zero => simp at hf
+    | succ f =>
+      simp only [parseTrace, traceOfLines]
+      rw [lineStep_eof r (by simpa [linesText] using htok)]
+  | cons l rest ih =>
+    cases fuel with
+    | zero => simp at hf
+    | succ f =>
+      obtain ⟨h1, h2, h3⟩ := hg l (by simp)
+      have hstep := lineStep_record r l.ow l.ttlT l.clsT l.tyT l.rdText (linesText rest) zo zo l.n l.m l.ttl l.ty
+        l.rd l.comment hco hzo (by simpa [linesText, RecLine.text, List.append_assoc] using htok) h1 h2 h3
+      simp only [parseTrace, traceOfLines, hstep, RecLine.entry]
+      obtain ⟨f1, f2, f3, f4, f5⟩ := afterRecord_fields r l.n l.ttl l.ty l.rd (linesText rest)
+      rw [ih (afterRecord r l.n l.ttl l.ty l.rd (linesText rest)) f (by simpa using hf) (f2 ▸ hco) (f3 ▸ hzo) f1
+        (by rw [f4, f5]; exact fun l' hl' => hg l' (by simp [hl']))]
 
 end Model
